@@ -69,7 +69,10 @@ let step _ cs os =
    | Some c -> add ("BAD\tside=impl\tclause=crash:" ^ c)
    | None ->
      if get f "kind" = "pair" then begin
-       let rs = Stdlib.List.map bytes_of_hex (split_on '|' (get o "rs")) in
+       (* "=" stands for "the same bytes as the first variant" *)
+       let toks = split_on '|' (get o "rs") in
+       let first = match toks with t :: _ when t <> "=" -> bytes_of_hex t | _ -> failwith "bad rs" in
+       let rs = Stdlib.List.map (fun t -> if t = "=" then first else bytes_of_hex t) toks in
        if not (Router.ok_C07_pair rs) then
          add (Printf.sprintf "BAD\tside=impl\tclause=variants_differ:first=%d"
                 (match rs with [] -> -1 | r :: _ -> first_diff 0 (Stdlib.List.map (fun _ -> r) rs) rs))
